@@ -23,6 +23,7 @@ plus all following lines up to the next directive; '#' in column 0 is a comment)
     @attr  text                            attribute line put in front of the item
     @witness name                          replay script used when an obligation of this fn fails
     @param text                            extra trailing parameter (ghost) appended to the signature
+    @tail NAME                             R-bind-tail: the tail expression E of the body becomes `let NAME = E; <ghost>; NAME`
 """
 import re
 
@@ -48,6 +49,7 @@ class Block:
         self.attrs = []
         self.witness = None
         self.params = []
+        self.tail = None
         self.used = False
 
     def key(self):
@@ -129,6 +131,9 @@ def parse(path):
             cur.witness = rest.strip()
         elif d == "param":
             cur.params.append(rest.strip())
+        elif d == "tail":
+            # @tail NAME  + ghost statements: the function's tail expression E becomes `let NAME = E; <ghost>; NAME`
+            cur.tail = (rest.strip(), "\n".join(lines).strip("\n"), ln)
         else:
             raise ValueError("%s:%d: unknown directive @%s" % (path, ln, d))
 
